@@ -1274,6 +1274,8 @@ Proof.
   exists w3. repeat split; auto; try congruence; try apply HBW3.
 Qed.
 
+Ltac csplit := repeat match goal with |- _ /\ _ => split end.
+
 Definition dz_FI (z : zst) (s_rem p_rem : bytes) (l : dz_layer) (w : world) : Prop :=
   zvalid z s_rem p_rem /\ w_o zst w = z /\ dz_pass l = false /\ dz_zinit l = fmt /\
   dz_devs w ++ dz_obuf l ++ p_rem = p /\ (length (dz_obuf l) <= dz_BUF)%nat /\ dz_BW w /\
@@ -1308,11 +1310,11 @@ Proof.
       destruct (dz_callback_benign (dz_some (dz_obuf l)) w HBW Hent) as (w1 & Hcb & HBW1 & Ho1 & Hd1 & He1 & Hm1).
       { rewrite <- Hpay in Hbomb. rewrite !app_length in Hbomb. unfold dz_len. cbn [dd_bytes dz_some]. lia. }
       rewrite Hcb. rewrite Z.eqb_refl. cbn [negb].
-      exists (dz_set_obuf l []), w1. wsimpl. cbn [dd_bytes dz_some] in Hd1. repeat split; auto; try congruence.
+      exists (dz_set_obuf l []), w1. wsimpl. cbn [dd_bytes dz_some] in Hd1. csplit; auto; try congruence.
       + unfold dz_avail_out. wsimpl. cbn [length]. unfold dz_BUF. rewrite dz_buf_size. lia.
       + rewrite Hd1, <- app_assoc. cbn [app]. exact Hpay.
       + cbn. lia.
-    - apply Nat.eqb_neq in Hao. exists l, w. repeat split; auto. lia. }
+    - apply Nat.eqb_neq in Hao. exists l, w. csplit; auto. lia. }
   destruct Hfl as (l1 & w1 & Hfl & Hao1 & Ho1 & Hp1 & Hz1 & Hpay1 & Hlen1 & HBW1 & Hent1 & Hm1).
   unfold dz_iter. rewrite Hfl.
   (* the inflate call *)
@@ -1334,7 +1336,7 @@ Proof.
     replace (c_dz_Z_OK =? c_dz_Z_STREAM_END) with false by reflexivity. rewrite Z.eqb_refl. cbn [negb].
     rewrite dz_skipn_app_le in Hv', Hmore by exact Hcn.
     destruct (IH (skipn cn input) rest z' p' l2 w2 c_dz_Z_OK) as (l3 & w3 & r3 & Hloop & Hm3 & Hres).
-    + subst l2 w2. unfold dz_FI. wsimpl. repeat split; auto.
+    + subst l2 w2. unfold dz_FI. wsimpl. csplit; auto.
       rewrite <- Hpay1, Hp'. rewrite <- !app_assoc. reflexivity.
     + exact Hmore.
     + rewrite Hp', app_length in Hfuel. pose proof (skipn_length cn input). lia.
@@ -1350,8 +1352,113 @@ Proof.
     rewrite Hcb. rewrite Z.eqb_refl. cbn [negb].
     exists (dz_set_obuf l2 []), w3, c_HTP_OK. split; auto. split; [subst w2; wsimpl; congruence|]. right.
     rewrite dz_skipn_app_le in Hdone by exact Hcn. apply app_eq_nil in Hdone. destruct Hdone as [_ Hrest]. split; auto.
-    unfold dz_FD. subst l2. wsimpl. repeat split; auto.
+    unfold dz_FD. subst l2. wsimpl. csplit; auto.
     rewrite Hd3. cbn [dd_bytes dz_some]. subst w2. replace (dz_devs (w_set_o zst w1 z')) with (dz_devs w1) by reflexivity.
     rewrite <- Hpay1, Hp'. reflexivity.
+Qed.
+
+(* between two body calls *)
+Definition dz_TI (z : zst) (s_rem p_rem : bytes) (t : dz_tx zst) : Prop :=
+  exists l, tx_chain zst t = [l] /\ tx_cep zst t = fmt /\ zvalid z s_rem p_rem /\ w_o zst (tx_w zst t) = z /\ dz_pass l = false /\
+    dz_zinit l = fmt /\ dz_devs (tx_w zst t) ++ dz_obuf l ++ p_rem = p /\ (length (dz_obuf l) <= dz_BUF)%nat /\ dz_BW0 (tx_w zst t) /\
+    w_entity zst (tx_w zst t) = Z.of_nat (length (dz_devs (tx_w zst t))).
+Definition dz_TD (t : dz_tx zst) : Prop :=
+  exists l, tx_chain zst t = [l] /\ tx_cep zst t = fmt /\ dz_pass l = false /\ dz_zinit l = fmt /\ dz_obuf l = [] /\
+    dz_devs (tx_w zst t) = p /\ dz_BW0 (tx_w zst t) /\ w_entity zst (tx_w zst t) = Z.of_nat (length (dz_devs (tx_w zst t))).
+
+Lemma dz_fmt_coded : dz_is_coded fmt = true.
+Proof. destruct Hfmt as [-> | ->]; reflexivity. Qed.
+
+Lemma dz_BW_enter (w : world) m : dz_BW0 w ->
+  dz_BW (w_set_nbcb zst (w_set_tbefore zst (w_tick_clock zst (w_set_message zst w m)) (dc_clock c (w_nclock zst (w_set_message zst w m)))) 0).
+Proof. intros [H1 H2]. unfold dz_BW, dz_BW0. wsimpl. rewrite Hclock. auto. Qed.
+
+(* the tail of htp_tx_res_process_body_data_ex after decompress returned, in a benign world: nothing happens *)
+Lemma dz_after_call_benign (w : world) : dz_BW w ->
+  match dz_timer_track (w_tspent zst (w_tick_clock zst w)) (dc_clock c (w_nclock zst w)) (w_tbefore zst (w_tick_clock zst w)) with
+  | Some sp => if sp >? dc_tlimit c then w_set_tpass zst (w_set_tspent zst (w_tick_clock zst w) sp) true else w_set_tspent zst (w_tick_clock zst w) sp
+  | None => w_tick_clock zst w
+  end = w_set_tspent zst (w_tick_clock zst w) 0.
+Proof.
+  intros ((Hsp & Htp) & Htb). wsimpl. rewrite Hclock, Htb, Hsp, dz_timer_track_same.
+  assert (Hng : (0 >? dc_tlimit c) = false) by (rewrite Z.gtb_ltb; apply Z.ltb_ge; lia). rewrite Hng. reflexivity.
+Qed.
+
+Lemma dz_process_data_faithful (t : dz_tx zst) z ch rest p_rem :
+  dz_TI z (ch ++ rest) p_rem t -> ch <> [] -> Z.of_nat (length ch) <= c_dz_UINT32_MAX -> (length ch + length p < dc_fuel c)%nat ->
+  let t' := fst (dz_process_body_data zst zask c t 0 (Some ch)) in
+  (rest <> [] /\ exists z' p_rem', dz_TI z' rest p_rem' t') \/ (rest = [] /\ dz_TD t').
+Proof.
+  intros (l & Hch & Hcep & Hv & Ho & Hp & Hz & Hpay & Hlen & HBW0 & Hent) Hne Hu32 Hfuel t'.
+  assert (Ht' : t' = fst (dz_process_body_data zst zask c t 0 (Some ch))) by reflexivity. clearbody t'.
+  unfold dz_process_body_data in Ht'. cbv zeta in Ht'. rewrite Hcep, dz_fmt_coded, Hch in Ht'.
+  cbn [dz_data_of] in Ht'. unfold dz_gettimeofday at 1 in Ht'.
+  set (w1 := w_set_message zst (tx_w zst t) (w_message zst (tx_w zst t) + 0 + dz_len (dz_some ch))) in *.
+  set (w2 := w_set_nbcb zst (w_set_tbefore zst (w_tick_clock zst w1) (dc_clock c (w_nclock zst w1))) 0) in *.
+  assert (HBW2 : dz_BW w2) by (apply dz_BW_enter; exact HBW0).
+  cbn [length dz_decompress] in Ht'. unfold dz_layer_run in Ht'. rewrite Hp in Ht'. cbn [dd_null dz_some] in Ht'.
+  assert (Henter : dz_enter (dz_some ch) 0 = Some ch).
+  { unfold dz_enter. cbn [dd_bytes dz_some skipn]. unfold dz_len. cbn [dd_bytes dz_some].
+    replace (length ch <? 0)%nat with false by (symmetry; apply Nat.ltb_ge; lia).
+    replace (Z.of_nat (length ch) >? c_dz_UINT32_MAX) with false by (symmetry; rewrite Z.gtb_ltb; apply Z.ltb_ge; lia). reflexivity. }
+  rewrite Henter in Ht'.
+  assert (HFI : dz_FI z (ch ++ rest) p_rem l w2).
+  { unfold dz_FI. csplit; auto. }
+  assert (Hne2 : ch ++ rest <> []) by (destruct ch; [congruence|discriminate]).
+  assert (Hf2 : (length ch + length p_rem < dc_fuel c)%nat).
+  { rewrite <- Hpay in Hfuel. rewrite !app_length in Hfuel. lia. }
+  destruct (dz_loop_faithful (fun (ls : list dz_layer) (_ : dz_data) (w : world) => (ls, w, c_HTP_ERROR)) (dz_some ch) (dc_fuel c) ch rest z p_rem l w2 0 HFI Hne2 Hf2)
+    as (l3 & w3 & r3 & Hloop & Hm3 & Hres).
+  rewrite Hloop in Ht'. cbn [dd_bytes dz_some] in Ht'. destruct ch as [|b ch']; [congruence|].
+  unfold dz_gettimeofday in Ht'. cbn [fst] in Ht'.
+  assert (HBW3 : dz_BW w3) by (destruct Hres as [(_ & z' & p' & HF)|(_ & HF)]; [apply HF|apply HF]).
+  rewrite (dz_after_call_benign w3 HBW3) in Ht'. wsimpl.
+  pose proof HBW3 as ((Hsp3 & Htp3) & Htb3). rewrite Htp3 in Ht'.
+  set (w4 := w_set_tpass zst (w_set_tspent zst (w_tick_clock zst w3) 0) false) in *.
+  assert (HBW04 : dz_BW0 w4) by (unfold dz_BW0; subst w4; wsimpl; auto).
+  subst t'.
+  destruct Hres as [(Hr & z' & p' & HF)|(Hr & HF)]; [left|right]; split; auto.
+  - exists z', p'. destruct HF as (Hv' & Ho' & Hp' & Hz' & Hpay' & Hlen' & _ & Hent').
+    exists (dz_set_fed l3 true). cbn [tx_chain tx_cep tx_w]. wsimpl. csplit; auto.
+  - destruct HF as (Hp' & Hz' & Hob' & Hd' & _ & Hent').
+    exists (dz_set_fed l3 true). cbn [tx_chain tx_cep tx_w]. wsimpl. csplit; auto.
+Qed.
+
+(* the end-of-stream call after the stream end: nothing more comes out, the decompressor is destroyed *)
+Lemma dz_process_null_faithful (t : dz_tx zst) :
+  dz_TD t ->
+  let t' := fst (dz_process_body_data zst zask c t 0 None) in
+  dz_devs (tx_w zst t') = p /\ tx_chain zst t' = [].
+Proof.
+  intros (l & Hch & Hcep & Hp & Hz & Hob & Hd & HBW0 & Hent) t'.
+  assert (Ht' : t' = fst (dz_process_body_data zst zask c t 0 None)) by reflexivity. clearbody t'.
+  unfold dz_process_body_data in Ht'. cbv zeta in Ht'. rewrite Hcep, dz_fmt_coded, Hch in Ht'.
+  cbn [dz_data_of] in Ht'. unfold dz_gettimeofday at 1 in Ht'.
+  set (w1 := w_set_message zst (tx_w zst t) (w_message zst (tx_w zst t) + 0 + dz_len dz_null)) in *.
+  set (w2 := w_set_nbcb zst (w_set_tbefore zst (w_tick_clock zst w1) (dc_clock c (w_nclock zst w1))) 0) in *.
+  assert (HBW2 : dz_BW w2) by (apply dz_BW_enter; exact HBW0).
+  cbn [length dz_decompress] in Ht'. unfold dz_layer_run in Ht'. rewrite Hp, Hob in Ht'. cbn [dd_null dz_null] in Ht'.
+  assert (Hent2 : w_entity zst w2 = Z.of_nat (length (dz_devs w2))) by exact Hent.
+  destruct (dz_callback_benign dz_null w2 HBW2 Hent2) as (w3 & Hcb & HBW3 & Ho3 & Hd3 & He3 & Hm3).
+  { replace (dz_devs w2) with (dz_devs (tx_w zst t)) by reflexivity. rewrite Hd. unfold dz_len. cbn. lia. }
+  rewrite Hcb, Z.eqb_refl in Ht'. cbn [negb] in Ht'.
+  unfold dz_gettimeofday in Ht'. rewrite (dz_after_call_benign w3 HBW3) in Ht'. cbn [fst] in Ht'.
+  pose proof HBW3 as ((Hsp3 & Htp3) & Htb3). wsimpl. rewrite Htp3 in Ht'.
+  cbn [dz_destroy] in Ht'. unfold dz_end in Ht'. destruct dz_fmt_facts as [Hnl Hn0]. rewrite Hz, Hnl, Hn0 in Ht'. cbn [negb] in Ht'.
+  unfold dz_ask in Ht'. cbn [zask] in Ht'. subst t'. cbn [tx_w tx_chain]. split; auto.
+  unfold dz_devs in *. wsimpl. rewrite Hd3. cbn [dd_bytes dz_null]. rewrite app_nil_r. exact Hd.
+Qed.
+
+Lemma dz_calls_faithful chunks : forall (t : dz_tx zst) z p_rem,
+  dz_TI z (concat chunks) p_rem t -> concat chunks <> [] ->
+  Forall (fun ch => ch <> [] /\ Z.of_nat (length ch) <= c_dz_UINT32_MAX /\ (length ch + length p < dc_fuel c)%nat) chunks ->
+  dz_TD (dz_calls zst zask c t (map (fun ch => (0, Some ch)) chunks)).
+Proof.
+  induction chunks as [|ch r IH]; intros t z p_rem HTI Hne Hall; [cbn in Hne; congruence|].
+  inversion Hall as [|? ? (Hc1 & Hc2 & Hc3) Hall']; subst. cbn [map dz_calls concat] in *.
+  destruct (dz_process_data_faithful t z ch (concat r) p_rem HTI Hc1 Hc2 Hc3) as [(Hr & z' & p' & HTI')|(Hr & HTD)].
+  - eapply IH; eauto.
+  - destruct r as [|ch2 r2]; [exact HTD|].
+    inversion Hall' as [|? ? (Hd1 & _) _]; subst. cbn [concat] in Hr. destruct ch2; [congruence|discriminate].
 Qed.
 End Faithful.
